@@ -38,6 +38,7 @@ class SimDisk:
         self.nmod = 0
         self.ino = {}
         self.fds = {}            # fake descriptor -> path
+        self.raw_by_fd = {}      # fake descriptor -> SimRaw (every handle, however it was opened)
         self.raws = {}           # fake descriptor -> SimRaw opened through os.open
         cwd = os.getcwd()
         self.cwds = sorted({cwd, os.path.normpath(cwd)} | ({os.path.realpath(cwd)} if not hasattr(os.stat, "__wrapped_sim__") else set()))
@@ -208,6 +209,8 @@ class SimDisk:
         st = self.state.pop(src, None)
         if st is not None:
             self.state[dst] = st
+            # the source path WAS written; its content has been moved away, not un-written
+            self.state[src] = ("bot", "moved", self.step)
         for (step, p) in list(self.wopened):
             if p == src:
                 self.wopened.add((step, dst))
@@ -258,8 +261,12 @@ class SimDisk:
                     cands.append(v[2])
             elif v[1] in ("overlapped", "removed", "foreign-damaged"):
                 unknown = True
-            else:                      # a writer ended without acknowledgement
+            elif v[1] == "moved":      # renamed away (a backup rotation): no new candidate
+                pass
+            else:                      # a writer ended without acknowledgement (it may never have opened the path itself)
                 inflight.discard(v[2])
+                if v[2] not in cands:
+                    cands.append(v[2])
         return None if unknown or not cands else list(cands)
 
     def ack(self, path, step_id):
@@ -274,9 +281,12 @@ class SimDisk:
 
     def nack(self, path, step_id, why):
         path = self.key(path)
-        # a write that never truncated (open refused, failure before open) leaves the old content valid
         if (step_id, path) in self.wopened:
             self.state[path] = ("bot", why, step_id)
+        else:
+            # the failed save never opened the target itself (open refused, or it wrote a side file that a later
+            # load may promote): the content is the old one or - legally - still becomes the new one
+            self.state[path] = ("bot", "aimed", step_id)
 
 
 class SimRaw(io.RawIOBase):
@@ -306,6 +316,7 @@ class SimRaw(io.RawIOBase):
         SimRaw._next_fd[0] += 1
         self.fd = SimRaw._next_fd[0]
         disk.fds[self.fd] = path
+        disk.raw_by_fd[self.fd] = self
         self.disk = disk
         self.path = path
         self.reading = reading
@@ -506,6 +517,8 @@ class GlobalFS:
             return real_open(file, mode, buffering, encoding, errors, newline, closefd, opener)
 
         def sim_stat(path, *a, **kw):
+            if isinstance(path, int) and path >= SimRaw.FD_BASE and fs.disk is not None and path in fs.disk.fds:
+                return fs.disk.stat(fs.disk.fds[path])
             if not isinstance(path, int) and fs.is_sim(path) and (fs.norm(path) in d.files or not _real_exists(path)):
                 return d.stat(fs.norm(path))
             return real_stat(path, *a, **kw)
@@ -607,8 +620,9 @@ class GlobalFS:
             return real_access(path, mode, *a, **kw)
 
         def sim_fstat(fd):
-            if isinstance(fd, int) and fd >= SimRaw.FD_BASE and fd in d.fds:
-                return d.stat(d.fds[fd])
+            dk = fs.disk
+            if dk is not None and isinstance(fd, int) and fd >= SimRaw.FD_BASE and fd in dk.fds:
+                return dk.stat(dk.fds[fd])
             return real_fstat(fd)
 
         def sim_chmod(path, *a, **kw):
@@ -632,10 +646,107 @@ class GlobalFS:
                 raise OSError(errno.EINVAL, "simulated device: no sendfile", None)      # shutil falls back to read/write
             return real_sendfile(out_fd, in_fd, *a, **kw)
 
+        def _anyraw(fd):
+            dk = fs.disk
+            return dk.raw_by_fd.get(fd) if (dk is not None and isinstance(fd, int) and fd >= SimRaw.FD_BASE) else None
+
         def sim_lseek(fd, pos, how):
+            r = _anyraw(fd)
+            if r is not None:
+                return r.seek(pos, how)
             if isinstance(fd, int) and fd >= SimRaw.FD_BASE:
-                return 0
+                raise OSError(errno.EBADF, os.strerror(errno.EBADF))
             return real_lseek(fd, pos, how)
+
+        real_ftruncate, real_fchmod = os.ftruncate, os.fchmod
+        real_pread, real_pwrite = getattr(os, "pread", None), getattr(os, "pwrite", None)
+        real_fallocate = getattr(os, "posix_fallocate", None)
+
+        def sim_ftruncate(fd, n):
+            r = _anyraw(fd)
+            if r is not None:
+                keep = r.pos
+                r.truncate(n)
+                r.pos = keep
+                return None
+            return real_ftruncate(fd, n)
+
+        def sim_fchmod(fd, mode):
+            if _anyraw(fd) is not None:
+                return None
+            return real_fchmod(fd, mode)
+
+        def sim_pread(fd, n, off):
+            r = _anyraw(fd)
+            if r is not None:
+                keep = r.pos
+                r.pos = off
+                try:
+                    b = bytearray(n)
+                    k = r.readinto(b)
+                    return bytes(b[:k or 0])
+                finally:
+                    r.pos = keep
+            return real_pread(fd, n, off)
+
+        def sim_pwrite(fd, data, off):
+            r = _anyraw(fd)
+            if r is not None:
+                keep = r.pos
+                r.pos = off
+                try:
+                    return r.write(memoryview(data).tobytes())
+                finally:
+                    r.pos = keep
+            return real_pwrite(fd, data, off)
+
+        def sim_fallocate(fd, off, n):
+            r = _anyraw(fd)
+            if r is not None:
+                buf = r.disk.files.setdefault(r.path, bytearray())
+                if len(buf) < off + n:
+                    buf.extend(b"\x00" * (off + n - len(buf)))
+                return None
+            return real_fallocate(fd, off, n)
+
+        os.ftruncate, os.fchmod = sim_ftruncate, sim_fchmod
+        if real_pread is not None:
+            os.pread, os.pwrite = sim_pread, sim_pwrite
+        if real_fallocate is not None:
+            os.posix_fallocate = sim_fallocate
+        try:
+            import mmap as _mmap
+            real_mmap = _mmap.mmap
+
+            class _SimMap(bytes):
+                """read-only mapping of a simulated file (a snapshot of its bytes, like MAP_PRIVATE)"""
+                def close(self):
+                    return None
+
+                def size(self):
+                    return len(self)
+
+                def __enter__(self):
+                    return self
+
+                def __exit__(self, *a):
+                    return False
+
+            def sim_mmap(fileno, length, *a, **kw):
+                r = _anyraw(fileno)
+                if r is None:
+                    return real_mmap(fileno, length, *a, **kw)
+                access = kw.get("access", a[2] if len(a) > 2 else _mmap.ACCESS_DEFAULT)
+                data = bytes(r.disk.files.get(r.path, b""))
+                if access != _mmap.ACCESS_READ and not (len(a) > 1 or "prot" in kw) :
+                    # the device does not offer shared writable mappings (as some real file systems do not)
+                    raise OSError(errno.ENODEV, os.strerror(errno.ENODEV))
+                if length == 0 and not data:
+                    raise ValueError("cannot mmap an empty file")
+                return _SimMap(data if length == 0 else data[:length])
+            _mmap.mmap = sim_mmap
+        except ImportError:
+            pass
 
         real_listxattr = getattr(os, "listxattr", None)
 
